@@ -172,3 +172,47 @@ func (e *Enc) typeFactsSpec(v Val) string {
 	}
 	return "true"
 }
+
+// lemmaAxioms renders every triggered lemma whose trigger function is used by e
+// as a quantified axiom. The lemma itself is proved separately (proveLemmas).
+func (e *Enc) lemmaAxioms() string {
+	var names []string
+	for n, l := range e.W.Specs.Lemmas {
+		if l.Trigger == nil {
+			continue
+		}
+		call, ok := l.Trigger.Expr.(*ast.CallExpr)
+		if !ok {
+			continue
+		}
+		if id, ok := call.Fun.(*ast.Ident); ok && e.used[id.Name] {
+			names = append(names, n)
+		}
+	}
+	sort.Strings(names)
+	var b strings.Builder
+	for _, n := range names {
+		l := e.W.Specs.Lemmas[n]
+		var binders []string
+		vars := lemmaParamVals(l, func(p Param, comp, sort string) string {
+			v := "L_" + n + "_" + comp
+			binders = append(binders, "("+v+" "+sort+")")
+			return v
+		})
+		c := &Ctx{E: e, Vars: vars, where: "lemma axiom " + n}
+		var pre, post []string
+		for _, p := range l.Params {
+			pre = append(pre, e.typeFactsSpec(vars[p.Name]))
+		}
+		for _, r := range l.Requires {
+			pre = append(pre, c.boolT(r.Expr))
+		}
+		for _, en := range l.Ensures {
+			post = append(post, c.boolT(en.Expr))
+		}
+		trig := c.tr(l.Trigger.Expr).C[0]
+		fmt.Fprintf(&b, "(assert (forall (%s) (! %s :pattern (%s))))\n", strings.Join(binders, " "), imp(and(pre...), and(post...)), trig)
+		e.usedLemmas[n] = true
+	}
+	return b.String()
+}
